@@ -331,7 +331,7 @@ theorem flatten_wf (p : Program) (hw : W0 p) (env : Env) (fl : List FlatOp)
   obtain ⟨e2, o4, o5, h4, h5, rfl⟩ := flattenFrom_append_inv h3
   obtain ⟨hrq, hgt⟩ := decls_regsOk decls _ e2 o4 hd regsOk_empty h4
   obtain ⟨_, _, _, hfl, _⟩ := decls_rel decls {} _ e2 o4 hd
-    ⟨fun _ => rfl, fun _ => rfl, rfl, rfl, fun _ r s n hh => by simp [Regs.find?] at hh, rfl, rfl⟩ h4
+    ⟨fun _ => rfl, fun _ => rfl, rfl, rfl, fun _ r s n hh => by simp [Regs.find?] at hh⟩ h4
   subst hfl
   have hee : env = e2 := flattenFrom_ops_env ops e2 env o5 ho h5
   subst hee
